@@ -19,6 +19,38 @@ Proof.
   intros x l. rewrite <- memb_In. destruct (memb x l); split; intros; try congruence; try tauto.
 Qed.
 
+(* ---- the generated loops, unfolded once (these equations fail when the source statements change) ------ *)
+Lemma offline_code : forall c u, Z.eqb (user_status c u) ST_OFFLINE = offline c u.
+Proof. intros c u. unfold user_status, offline. destruct (ust (info c u)); reflexivity. Qed.
+
+Lemma scan_cons : forall c bu seen t r,
+  scan c bu seen (t :: r) =
+    if offline c (tuser t) then scan c bu seen r
+    else if memb (tuser t) bu then scan c bu seen r
+    else if memb (tuser t) seen then scan c bu seen r
+    else if is_queued t then t :: scan c bu (tuser t :: seen) r
+    else scan c bu seen r.
+Proof. intros. rewrite <- offline_code. reflexivity. Qed.
+
+Lemma scan_nil : forall c bu seen, scan c bu seen [] = [].
+Proof. reflexivity. Qed.
+
+Lemma insert_cons : forall c x y r,
+  insert c x (y :: r) = if rank c x <=? rank c y then x :: y :: r else y :: insert c x r.
+Proof. reflexivity. Qed.
+Lemma insert_nil : forall c x, insert c x [] = [x].
+Proof. reflexivity. Qed.
+Lemma isort_cons : forall c x l, isort c (x :: l) = insert c x (isort c l).
+Proof. reflexivity. Qed.
+Lemma isort_nil : forall c, isort c [] = [].
+Proof. reflexivity. Qed.
+Lemma prioritize_eq : forall c l, prioritize c l = rev (isort c l).
+Proof. reflexivity. Qed.
+Lemma free_eq : forall c ts, free c ts = slots c - length (filter processing ts).
+Proof. intros. unfold free, free_gen. lia. Qed.
+
+Global Opaque scan insert isort prioritize free.
+
 Lemma NoDup_map_inj : forall (A B : Type) (f : A -> B) l a b,
   NoDup (map f l) -> In a l -> In b l -> f a = f b -> a = b.
 Proof.
@@ -47,8 +79,8 @@ Lemma scan_spec : forall c bu ts seen t, In t (scan c bu seen ts) ->
   In t ts /\ is_queued t = true /\ offline c (tuser t) = false /\
   memb (tuser t) bu = false /\ memb (tuser t) seen = false.
 Proof.
-  intros c bu ts. induction ts as [|a r IH]; intros seen t H; [destruct H|].
-  cbn [scan] in H. unfold SCAN_SKIPS_OFFLINE, SCAN_SKIPS_BUSY_USERS, SCAN_ONE_PER_USER in H. cbn [andb] in H.
+  intros c bu ts. induction ts as [|a r IH]; intros seen t H; [rewrite scan_nil in H; destruct H|].
+  rewrite scan_cons in H.
   destruct (offline c (tuser a)) eqn:Eo; [apply IH in H; cbn; tauto|].
   destruct (memb (tuser a) bu) eqn:Eb; [apply IH in H; cbn; tauto|].
   destruct (memb (tuser a) seen) eqn:Es; [apply IH in H; cbn; tauto|].
@@ -60,9 +92,9 @@ Qed.
 
 Lemma scan_nodup : forall c bu ts seen, NoDup (map tuser (scan c bu seen ts)).
 Proof.
-  intros c bu ts. induction ts as [|a r IH]; intros seen; [constructor|].
-  cbn [scan]. destruct (_ && offline c (tuser a)); auto.
-  destruct (_ && memb (tuser a) bu); auto. destruct (_ && memb (tuser a) seen); auto.
+  intros c bu ts. induction ts as [|a r IH]; intros seen; [rewrite scan_nil; constructor|].
+  rewrite scan_cons. destruct (offline c (tuser a)); auto.
+  destruct (memb (tuser a) bu); auto. destruct (memb (tuser a) seen); auto.
   destruct (is_queued a); auto. cbn. constructor; auto.
   intros H. apply in_map_iff in H. destruct H as (t & E & Ht). apply scan_spec in Ht.
   destruct Ht as (_ & _ & _ & _ & H5). cbn in H5. rewrite E, Nat.eqb_refl in H5. discriminate.
@@ -73,7 +105,7 @@ Lemma scan_complete : forall c bu ts seen u,
   (exists t, In t ts /\ tuser t = u /\ is_queued t = true) -> In u (map tuser (scan c bu seen ts)).
 Proof.
   intros c bu ts. induction ts as [|a r IH]; intros seen u Ho Hb Hs (t & Ht & Eu & Hq); [destruct Ht|].
-  cbn [scan]. unfold SCAN_SKIPS_OFFLINE, SCAN_SKIPS_BUSY_USERS, SCAN_ONE_PER_USER. cbn [andb].
+  rewrite scan_cons.
   assert (R : a <> t -> exists t0, In t0 r /\ tuser t0 = u /\ is_queued t0 = true).
   { intros N. exists t. destruct Ht as [E|Ht]; [congruence|auto]. }
   destruct (Nat.eq_dec (tuser a) u) as [Ea|Na].
@@ -108,20 +140,20 @@ Definition desc (c : cfg) := StronglySorted (fun a b => rank c b <= rank c a).
 
 Lemma insert_perm : forall c x l, Permutation (insert c x l) (x :: l).
 Proof.
-  intros c x l. induction l as [|y r IH]; cbn; [reflexivity|].
+  intros c x l. induction l as [|y r IH]; [rewrite insert_nil; reflexivity|]. rewrite insert_cons.
   destruct (rank c x <=? rank c y); [reflexivity|].
   rewrite IH. apply perm_swap.
 Qed.
 
 Lemma isort_perm : forall c l, Permutation (isort c l) l.
 Proof.
-  intros c l. induction l as [|x r IH]; cbn; [reflexivity|].
+  intros c l. induction l as [|x r IH]; [rewrite isort_nil; reflexivity|]. rewrite isort_cons.
   rewrite insert_perm. constructor. exact IH.
 Qed.
 
 Lemma insert_sorted : forall c x l, asc c l -> asc c (insert c x l).
 Proof.
-  intros c x l H. induction H as [|y r Hs IH Hf]; cbn; [repeat constructor|].
+  intros c x l H. induction H as [|y r Hs IH Hf]; [rewrite insert_nil; repeat constructor|]. rewrite insert_cons.
   destruct (rank c x <=? rank c y) eqn:E.
   - apply Nat.leb_le in E. constructor; [constructor; auto|].
     constructor; [exact E|]. eapply Forall_impl; [|exact Hf]. cbn. intros; lia.
@@ -130,7 +162,7 @@ Proof.
 Qed.
 
 Lemma isort_sorted : forall c l, asc c (isort c l).
-Proof. intros c l. induction l; cbn; [constructor|apply insert_sorted; assumption]. Qed.
+Proof. intros c l. induction l; [rewrite isort_nil; constructor|rewrite isort_cons; apply insert_sorted; assumption]. Qed.
 
 Lemma ssorted_app : forall (A : Type) (R : A -> A -> Prop) l1 l2,
   StronglySorted R l1 -> StronglySorted R l2 -> (forall a b, In a l1 -> In b l2 -> R a b) ->
@@ -159,17 +191,15 @@ Qed.
 
 Lemma prioritize_perm : forall c l, Permutation (prioritize c l) l.
 Proof.
-  intros c l. unfold prioritize. destruct SORT_REVERSED.
-  - rewrite <- Permutation_rev. apply isort_perm.
-  - apply isort_perm.
+  intros c l. rewrite prioritize_eq. rewrite <- Permutation_rev. apply isort_perm.
 Qed.
 
 Lemma prioritize_desc : forall c l, desc c (prioritize c l).
-Proof. intros c l. unfold prioritize, SORT_REVERSED. apply rev_desc. apply isort_sorted. Qed.
+Proof. intros c l. rewrite prioritize_eq. apply rev_desc. apply isort_sorted. Qed.
 
 (* ---- selection theorems ------------------------------------------------------------------ *)
 Lemma select_firstn : forall c ts, select c ts = firstn (free c ts) (prioritize c (eligible c ts)).
-Proof. intros. unfold select, SLICE_EXTRA. rewrite Nat.add_0_r. reflexivity. Qed.
+Proof. intros. unfold select, slice_gen. rewrite Nat.add_0_r. reflexivity. Qed.
 
 Lemma In_firstn : forall (A : Type) n (l : list A) x, In x (firstn n l) -> In x l.
 Proof. intros A n l x H. rewrite <- (firstn_skipn n l). apply in_or_app. auto. Qed.
@@ -389,7 +419,7 @@ Proof.
       { unfold ids. rewrite map_length. rewrite <- F. apply select_bound. }
       assert (L4 : length (filter busy ts) = length (filter processing ts)).
       { f_equal. apply filter_ext_in. intros t Ht. apply (no_starting_busy ts); auto. }
-      unfold free in F. lia.
+      rewrite free_eq in F. lia.
 Qed.
 
 Lemma started_no_starting : forall c ts, no_starting ts = true -> started c ts = select c ts.
@@ -568,7 +598,7 @@ Proof.
     pose proof (idle_no_processing s I) as NP.
     assert (EU : eligible_user (mcfg s) (mts s) (tuser w)).
     { split; [exact O|]. split; [unfold busy_users; rewrite NP; intros []|]. exists w. auto. }
-    assert (Fr : 0 < free (mcfg s) (mts s)) by (unfold free; rewrite NP; cbn; lia).
+    assert (Fr : 0 < free (mcfg s) (mts s)) by (rewrite free_eq, NP; cbn; lia).
     destruct (work_conserving (mcfg s) (mts s)) as (_ & _ & _ & WC).
     specialize (WC _ Fr EU).
     assert (Ex : exists t0, In t0 (select (mcfg s) (mts s))).
@@ -667,7 +697,7 @@ Proof.
                                        | or_intror Hp => or_introl Hp end)).
       pose proof (marked_count (map tid (select c ts)) ts (ids_nodup ts I1)) as L2.
       assert (L3 : length (map tid (select c ts)) <= S n) by (rewrite map_length, <- F; apply select_bound).
-      unfold free in F. lia.
+      rewrite free_eq in F. lia.
 Qed.
 
 Lemma step_inv_guarded : forall s e, CYCLE_GUARD_TR = true -> Inv s ->
@@ -695,4 +725,74 @@ Proof.
     + right. intros t Ht P. apply Rr; auto. apply processing_busy. exact P.
   - apply nodup_users; [apply ids_nodup; exact I1|].
     intros t1 t2 H1 H2 P1 P2 E. apply I2; auto using processing_busy.
+Qed.
+
+(* ---- the event-loop half of A1 ------------------------------------------------------------------- *)
+(* no first segment is queued behind a step of the job; a job step is queued iff the flag says so *)
+Fixpoint firsts_before_job (q : list handle) : bool :=
+  match q with
+  | [] => true
+  | HJob :: r => negb (existsb is_first r) && firsts_before_job r
+  | _ :: r => firsts_before_job r
+  end.
+
+Definition njobs (q : list handle) : nat := length (filter is_job q).
+
+Record LI (s : loopst) : Prop := mkLI {
+  li_order : firsts_before_job (lq s) = true;
+  li_flag : njobs (lq s) = if ljob_queued s then 1 else 0;
+  li_good : lbad s = false }.
+
+Lemma njobs0 : forall q, njobs q = 0 -> existsb is_job q = false.
+Proof. intros q. induction q as [|h r IH]; cbn; auto. destruct h; cbn; auto. discriminate. Qed.
+
+Lemma njobs_app : forall a b, njobs (a ++ b) = njobs a + njobs b.
+Proof. intros. unfold njobs. rewrite filter_app, app_length. reflexivity. Qed.
+
+Lemma njobs_firsts : forall l, njobs (map HFirst l) = 0.
+Proof. induction l; cbn; auto. Qed.
+
+Lemma fbj_app_first : forall q l, existsb is_job q = false -> firsts_before_job (q ++ map HFirst l) = true.
+Proof.
+  intros q l. induction q as [|h r IH]; intros H; cbn.
+  - induction l; cbn; auto.
+  - destruct h; cbn in *; try discriminate; auto.
+Qed.
+
+Lemma fbj_app_other : forall q h, is_first h = false -> firsts_before_job q = true -> firsts_before_job (q ++ [h]) = true.
+Proof.
+  intros q h Hh. induction q as [|x r IH]; intros H; cbn.
+  - destruct h; cbn in *; auto.
+  - destruct x; cbn in *; auto. apply andb_true_iff in H. destruct H as (A & B).
+    rewrite existsb_app. cbn. rewrite Hh. apply negb_true_iff in A. rewrite A. cbn. auto.
+Qed.
+
+Lemma LI_step : forall s e, LI s -> LI (lstep s e).
+Proof.
+  intros [q jq bad] e [O F G]. cbn [lq ljob_queued lbad] in *. subst bad. destruct e; cbn [lstep lq ljob_queued lbad].
+  - destruct q as [|h r]; [constructor; auto|]. destruct h.
+    + constructor; cbn [lq ljob_queued lbad]; auto.
+    + cbn in O. apply andb_true_iff in O. destruct O as (NF & O'). apply negb_true_iff in NF.
+      assert (N0 : njobs r = 0) by (unfold njobs in *; cbn in F; destruct jq; lia).
+      constructor; cbn [lq ljob_queued lbad].
+      * apply fbj_app_first. apply njobs0. exact N0.
+      * rewrite njobs_app, njobs_firsts. lia.
+      * rewrite NF. reflexivity.
+    + constructor; cbn [lq ljob_queued lbad]; auto.
+  - destruct jq; [constructor; auto|]. constructor; cbn [lq ljob_queued lbad]; auto.
+    + apply fbj_app_other; auto.
+    + rewrite njobs_app. cbn. lia.
+  - constructor; cbn [lq ljob_queued lbad]; auto.
+    + apply fbj_app_other; auto.
+    + rewrite njobs_app. cbn. destruct jq; lia.
+Qed.
+
+Lemma LI_init : LI linit.
+Proof. constructor; reflexivity. Qed.
+
+Lemma loop_a1 : forall evs, lbad (lrun linit evs) = false.
+Proof.
+  intros evs. assert (H : forall s, LI s -> LI (lrun s evs)).
+  { induction evs as [|e r IH]; intros s L; [exact L|]. cbn. apply IH. apply LI_step. exact L. }
+  apply (li_good _ (H linit LI_init)).
 Qed.
